@@ -199,8 +199,9 @@ func AnalyzeLocks(fns []*ssa.Function, entryEmpty func(*ssa.Function) bool) *Loc
 	}
 	// call sites by callee
 	type site struct {
-		caller *ssa.Function
-		call   ssa.CallInstruction
+		caller   *ssa.Function
+		call     ssa.CallInstruction
+		deferred bool
 	}
 	sites := map[*ssa.Function][]site{}
 	escapes := map[*ssa.Function]bool{}
@@ -212,11 +213,12 @@ func AnalyzeLocks(fns []*ssa.Function, entryEmpty func(*ssa.Function) bool) *Loc
 						if _, isGo := instr.(*ssa.Go); isGo {
 							escapes[callee] = true
 						} else if _, isDefer := instr.(*ssa.Defer); isDefer {
-							// deferred call runs at function exit: locks taken with
-							// "defer Unlock" are released in LIFO order; conservative: nothing held
-							escapes[callee] = true
+							// a deferred call runs at function exit: what the function locked itself may
+							// have been released by then (LIFO with "defer Unlock"), so none of that is
+							// counted; the locks its own callers hold around the whole call still are
+							sites[callee] = append(sites[callee], site{f, c, true})
 						} else {
-							sites[callee] = append(sites[callee], site{f, c})
+							sites[callee] = append(sites[callee], site{f, c, false})
 						}
 					}
 				}
@@ -225,6 +227,9 @@ func AnalyzeLocks(fns []*ssa.Function, entryEmpty func(*ssa.Function) bool) *Loc
 					if fn, ok := (*op).(*ssa.Function); ok && inSet[fn] {
 						if c, ok := instr.(ssa.CallInstruction); ok && c.Common().Value == fn {
 							continue
+						}
+						if _, isMC := instr.(*ssa.MakeClosure); isMC {
+							continue // what happens to the closure value decides (below)
 						}
 						escapes[fn] = true
 					}
@@ -259,8 +264,10 @@ func AnalyzeLocks(fns []*ssa.Function, entryEmpty func(*ssa.Function) bool) *Loc
 				}
 				held := la.Held[s.caller][s.call.(ssa.Instruction)]
 				all := callerEntry.clone()
-				for k := range held {
-					all[k] = true
+				if !s.deferred {
+					for k := range held {
+						all[k] = true
+					}
 				}
 				t := translate(all, s.call, f)
 				if acc == nil {
